@@ -138,16 +138,17 @@ pub(super) fn derive_schema(input: TokenStream) -> syn::Result<TokenStream> {
                         continue
                     }
 
-                    let mut ident = f.ident.clone().unwrap(/* Named */);
+                    /* the key is any string (`my-field`, `r-1`) : not always an `Ident` */
+                    let ident = f.ident.clone().unwrap(/* Named */);
+                    let mut property_name = LitStr::new(&ident.to_string(), ident.span());
                     if let Some((span, case)) = container_attrs.serde.rename_all.value()? {
-                        ident = Ident::new(&case.apply_to_field(&ident.to_string()), span);
+                        property_name = LitStr::new(&case.apply_to_field(&ident.to_string()), span);
                     }
                     if let Some((span, rename)) = field_attrs.serde.rename.value()? {
-                        ident = Ident::new(&rename, span);
+                        property_name = LitStr::new(&rename, span);
                     }
 
                     if let Some(schema_with) = &field_attrs.openapi.schema_with {
-                        let property_name = LitStr::new(&ident.to_string(), ident.span());
                         let schema_with = syn::parse_str::<Path>(schema_with)?;
                         properties.push(quote! {
                             schema = schema.property(#property_name, #schema_with());
@@ -198,8 +199,6 @@ pub(super) fn derive_schema(input: TokenStream) -> syn::Result<TokenStream> {
                             }
                         })
                     } else {
-                        let property_name = LitStr::new(&ident.to_string(), ident.span());
-
                         properties.push(if is_optional_field {quote! {
                             schema = schema.optional(#property_name, #property_schema);
                         }} else {quote! {
@@ -321,15 +320,15 @@ pub(super) fn derive_schema(input: TokenStream) -> syn::Result<TokenStream> {
                 variant_names.push({
                     let variant_attrs = VariantAttributes::new(&v.attrs)?;
                     
-                    let mut ident = v.ident.clone();
+                    let mut name = LitStr::new(&v.ident.to_string(), v.ident.span());
                     if let Some((span, case)) = container_attrs.serde.rename_all.value()? {
-                        ident = Ident::new(&case.apply_to_variant(&ident.to_string()), span);
+                        name = LitStr::new(&case.apply_to_variant(&v.ident.to_string()), span);
                     }
-                    if let Some((span, name)) = variant_attrs.serde.rename.value()? {
-                        ident = Ident::new(&*name, span);
+                    if let Some((span, rename)) = variant_attrs.serde.rename.value()? {
+                        name = LitStr::new(&*rename, span);
                     };
                     
-                    LitStr::new(&ident.to_string(), ident.span())
+                    name
                 });
             }
             
@@ -353,14 +352,14 @@ pub(super) fn derive_schema(input: TokenStream) -> syn::Result<TokenStream> {
                 }
 
                 let tag = {
-                    let mut ident = v.ident;
+                    let mut tag = LitStr::new(&v.ident.to_string(), v.ident.span());
                     if let Some((span, case)) = container_attrs.serde.rename_all.value()? {
-                        ident = Ident::new(&case.apply_to_variant(&ident.to_string()), span);
+                        tag = LitStr::new(&case.apply_to_variant(&v.ident.to_string()), span);
                     }
                     if let Some((span, name)) = variant_attrs.serde.rename.value()? {
-                        ident = Ident::new(&*name, span);
+                        tag = LitStr::new(&*name, span);
                     }
-                    LitStr::new(&ident.to_string(), ident.span())
+                    tag
                 };
 
                 /* The enum's `rename_all` renames the variants, not their fields:
